@@ -371,6 +371,11 @@ class Ctx:
         inp = "".join(json.dumps(c) + "\n" for c in cases)
         env = dict(os.environ)
         env["RUST_BACKTRACE"] = "0"
+        # harness scratch directories live in a private temp dir: some of the repository's own tests use
+        # the system temp dir itself as a record store and delete hex-named files they cannot decrypt
+        tmpd = os.path.join(CACHE, "tmp")
+        os.makedirs(tmpd, exist_ok=True)
+        env["TMPDIR"] = tmpd
         if env_extra:
             env.update(env_extra)
         try:
